@@ -26,13 +26,23 @@ GEOS = [
     dict(G0, shapes=[[1, 3], [2, 1, 2]], merge=True),
     dict(G0, shapes=[[5, 2]], block=2),
     dict(G0, shapes=[[3], [2, 3]], block=2, ptype="INPUT", merge=True, merge_limit=2),
+    dict(G0, shapes=[[], [3]]),                                    # rank 0 (no statistics, still grafted)
+    dict(G0, shapes=[[2, 1, 3, 1]], merge=True, merge_limit=3),    # rank 4 with unit dims
 ]
 TOL = {"update": 2e-3, "stats": 1e-5, "roots": 1e-3}
 
 
 def replay(ck, beh, label, geos=GEOS):
-  jobs = [{"cfg": b["cfg"], "geo": dict(geos[i % len(geos)], eigh=bool((i // len(geos)) % 2)),
-           "steps": b["steps"], "seed": ck.seed * 10000 + i} for i, b in enumerate(beh)]
+  jobs = []
+  for i, b in enumerate(beh):
+    # diagonal_epsilon alternates between the default and a value large enough to tell
+    # g/(sqrt(acc)+eps) from g/sqrt(acc+eps)
+    geo = dict(geos[i % len(geos)], eigh=bool((i // len(geos)) % 2), diag_eps=[1e-10, 2.0 ** -6][(i // 3) % 2])
+    if b["cfg"]["shard"] and [] in geo["shapes"]:
+      # sharded mode with an un-skipped rank-0 parameter is the open C07 finding
+      # ds|shard|zero_stat_unskipped_param: keep it out of the C02 comparison
+      geo["shapes"] = [s if s else [2] for s in geo["shapes"]]
+    jobs.append({"cfg": b["cfg"], "geo": geo, "steps": b["steps"], "seed": ck.seed * 10000 + i})
   res = core.run_workers("harness.workers.ds_terms", jobs, x64=True, work=ck.work)
   dev = 0
   for j, r in zip(jobs, res):
